@@ -81,6 +81,16 @@ def extract(cfg, repo=None, key=None, quiet=True):
     stamp = os.path.join(outdir, "OK")
     if os.path.exists(stamp):
         return outdir
+    # facts depend on the tree only: every cache directory (sweeps, self-tests, scratch runs)
+    # shares one pool of extracted trees
+    pbase = os.environ.get("VERIF_FACTPOOL") or os.path.join(VERIF, ".cache", "factpool")
+    pool = os.path.join(pbase, key, cfg)
+    if os.path.exists(os.path.join(pool, "OK")):
+        try:
+            os.utime(os.path.join(pbase, key))
+        except OSError:
+            pass
+        return pool
     if os.path.isdir(outdir):
         shutil.rmtree(outdir)
     os.makedirs(outdir)
@@ -125,6 +135,17 @@ def extract(cfg, repo=None, key=None, quiet=True):
             raise EngineError("stale fact file for %s (nonce mismatch)" % c)
     with open(stamp, "w") as fh:
         fh.write(nonce)
+    try:
+        os.makedirs(os.path.join(pbase, key), exist_ok=True)
+        tmp = pool + ".tmp%d" % os.getpid()
+        shutil.copytree(outdir, tmp)
+        os.rename(tmp, pool)
+        ds = sorted((os.path.getmtime(os.path.join(pbase, d)), d) for d in os.listdir(pbase))
+        for _, d in ds[:-450]:
+            if d != key:
+                shutil.rmtree(os.path.join(pbase, d), ignore_errors=True)
+    except OSError:
+        shutil.rmtree(pool + ".tmp%d" % os.getpid(), ignore_errors=True)
     # keep the cache bounded: drop fact dirs of other tree hashes (keep the 6 newest)
     base = os.path.join(CACHE, "facts")
     ds = sorted((os.path.getmtime(os.path.join(base, d)), d) for d in os.listdir(base))
